@@ -18,6 +18,7 @@
 import AdaptixModel.Layout.CallPlan
 import AdaptixModel.Layout.Default
 import AdaptixProofs.Lemmas.CallPlanFinal
+import AdaptixProofs.Lemmas.CallPlanExtract
 import AdaptixProofs.Lemmas.DefaultFactory
 
 namespace Adaptix.C08
@@ -141,6 +142,55 @@ theorem plan_binds_own_fields {s : Shape} {c : Cfg} {i : Inputs V}
           apply h1
           rw [passed_of hfield, hsk, hpk]; rfl
 
+/-- witness shape for the theorems above: positional-only, two positional-or-keyword parameters (one skipped by
+    the layout, one defaulted), a packed optional one (no passable default; parameter name ≠ field id), a
+    keyword-only one, `**kwargs` with `ExtraKwargs` -/
+def mixShape : Shape :=
+  { fields := [⟨"p", true, .noDefault⟩, ⟨"q", false, .value⟩, ⟨"r", false, .value⟩, ⟨"u", false, .factoryWithSelf⟩,
+               ⟨"k", true, .noDefault⟩]
+    params := [⟨"p", "p", .posOnly⟩, ⟨"q", "q", .posOrKw⟩, ⟨"r", "r", .posOrKw⟩, ⟨"u", "u_", .posOrKw⟩,
+               ⟨"k", "k", .kwOnly⟩]
+    kwargs := true }
+
+def mixCfg : Cfg := { skipped := ["q"], useDefaultForOmitted := true, extraMove := .kwargs }
+
+/-- `p`, `k`, `u` present; `r` absent (default clause 30); two extra items, one named like the positional-only `p` -/
+def mixInputs : Inputs Nat :=
+  { loaded := fun id => if id == "p" then some 1 else if id == "k" then some 4 else if id == "u" then some 8 else Option.none
+    dflt := fun id => if id == "r" then some 30 else Option.none
+    extra := [("z", 9), ("p", 5)] }
+
+theorem mixRunOk : RunOk mixShape mixCfg mixInputs where
+  vars := by
+    intro f hf hs hp
+    simp only [mixShape, List.mem_cons, List.not_mem_nil, or_false] at hf
+    rcases hf with rfl | rfl | rfl | rfl | rfl <;>
+      first | rfl | (exact absurd hs (by decide)) | (exact absurd hp (by decide))
+  extra := by
+    intro _
+    refine ⟨rfl, by decide, ?_⟩
+    intro k hk p hp hkind
+    simp only [mixInputs, List.map_cons, List.map_nil, List.mem_cons, List.not_mem_nil, or_false] at hk
+    simp only [mixShape, List.mem_cons, List.not_mem_nil, or_false] at hp
+    rcases hp with rfl | rfl | rfl | rfl | rfl <;> rcases hk with rfl | rfl <;>
+      first | decide | (exact absurd rfl hkind)
+
+/-- **witness**: all four hypotheses of `plan_binds_own_fields` hold together for the mixed shape, and the
+    theorem yields: `p` its loaded value, the skipped `q` nothing, the absent `r` its default clause, the packed
+    `u` its loaded value under the parameter name `u_`, `k` its loaded value, `**kwargs` both extra items. -/
+theorem plan_binds_own_fields_witness :
+    ∃ args b ex, mkPlan true mixShape mixCfg mixInputs = .ok args ∧ bindArgs mixShape.sig args = .ok (b, ex) ∧
+      b.lookup "p" = some 1 ∧ b.lookup "q" = Option.none ∧ b.lookup "r" = some 30 ∧ b.lookup "u_" = some 8 ∧
+      b.lookup "k" = some 4 ∧ ex = [("z", 9), ("p", 5)] := by
+  obtain ⟨args, b, ex, h1, h2, h3, h4⟩ :=
+    plan_binds_own_fields (s := mixShape) (c := mixCfg) (i := mixInputs) (by decide) (by decide) (by decide) mixRunOk
+  refine ⟨args, b, ex, h1, h2, ?_, ?_, ?_, ?_, ?_, h4⟩
+  · exact (h3 ⟨"p", "p", .posOnly⟩ (by simp [mixShape])).trans rfl
+  · exact (h3 ⟨"q", "q", .posOrKw⟩ (by simp [mixShape])).trans rfl
+  · exact (h3 ⟨"r", "r", .posOrKw⟩ (by simp [mixShape])).trans rfl
+  · exact (h3 ⟨"u", "u_", .posOrKw⟩ (by simp [mixShape])).trans rfl
+  · exact (h3 ⟨"k", "k", .kwOnly⟩ (by simp [mixShape])).trans rfl
+
 /-- A required field is always passed and receives the loaded value. -/
 theorem required_receives_loaded {s : Shape} {c : Cfg} {i : Inputs V} {p : Param} {f : Field} {v : V}
     (hcfg : wfCfg s c = true) (hf : s.field? p.fieldId = some f) (hreq : f.required = true)
@@ -153,6 +203,9 @@ theorem required_receives_loaded {s : Shape} {c : Cfg} {i : Inputs V} {p : Param
   unfold expected
   rw [hf]
   simp only [hns, Bool.false_eq_true, if_false, isPacked_required hreq, Inputs.fieldVar, hl]
+
+example : expected mixShape mixCfg mixInputs ⟨"k", "k", .kwOnly⟩ = some 4 :=
+  required_receives_loaded (f := ⟨"k", true, .noDefault⟩) (by decide) rfl rfl rfl
 
 /-- **The constructor is invoked exactly once on success and never when the
     load fails before it** — for every trail mode, every list of field
@@ -236,6 +289,98 @@ theorem failed_field_no_call {V E R : Type} (fix : Bool) (trail : Trail) (missin
   unfold loadModel
   rw [hes]
 
+/-! ### what the constructor receives, and when it is reached (added by the audit)
+
+    `constructor_once` holds by the construction of `loadModel` (the counter is written next to the call), and
+    `plan_binds_own_fields` speaks about an abstract `Inputs`.  The three theorems below connect the two: the
+    inputs of the one call are exactly the loaded values of the fields present in the input
+    (`presentVals`, an independent one-line specification), the call is reached whenever no field failed and
+    no required field is absent, and `RunOk.vars` follows from the extraction phase. -/
+
+/-- **The constructor is called with exactly the loaded values of the fields present in the input**: a
+    successful load means that nothing stopped the extraction and the constructor returned `r` on the argument
+    list planned from `presentVals frs` — no value of an absent or failed field, no value twice. -/
+theorem constructor_gets_present_values {V E R : Type} (fix : Bool) (trail : Trail) (missingErr : String → E)
+    (s : Shape) (c : Cfg) (dflt : String → Option V) (extra : List (String × V))
+    (construct : List (Arg V) → Option R) (frs : List (Field × FieldRes V E)) (r : R)
+    (h : (loadModel fix trail missingErr s c dflt extra construct frs).1 = .ok r) :
+    Extractable frs ∧
+    ∃ args, mkPlan fix s c { loaded := fun id => (presentVals frs).lookup id, dflt := dflt, extra := extra } = .ok args ∧
+      construct args = some r := by
+  unfold loadModel at h
+  cases he : extract trail missingErr s frs [] [] with
+  | error es => simp [he] at h
+  | ok vals =>
+    obtain ⟨_, hx, rfl⟩ := (extract_ok_iff trail missingErr s frs [] [] vals).mp he
+    simp only [he, List.nil_append] at h
+    cases hp : mkPlan fix s c { loaded := fun id => (presentVals frs).lookup id, dflt := dflt, extra := extra } with
+    | error e => simp [hp] at h
+    | ok args =>
+      simp only [hp] at h
+      cases hc : construct args with
+      | none => simp [hc] at h
+      | some r' =>
+        simp only [hc, LoadOutcome.ok.injEq] at h
+        exact ⟨hx, args, rfl, h ▸ hc⟩
+
+/-- **… and it is reached, exactly once, whenever nothing stops the extraction** (so `__post_init__` and
+    validators run): the outcome is the constructor's own outcome on a call that Python binds without TypeError. -/
+theorem constructor_reached {V E R : Type} [Inhabited V] (trail : Trail) (missingErr : String → E)
+    {s : Shape} {c : Cfg} (dflt : String → Option V) (extra : List (String × V))
+    (construct : List (Arg V) → Option R) (frs : List (Field × FieldRes V E))
+    (hwf : wfShape s = true) (hcfg : wfCfg s c = true) (hinj : (s.params.map (·.fieldId)).Nodup)
+    (hx : Extractable frs)
+    (hrun : RunOk s c { loaded := fun id => (presentVals frs).lookup id, dflt := dflt, extra := extra }) :
+    ∃ args b ex,
+      mkPlan true s c { loaded := fun id => (presentVals frs).lookup id, dflt := dflt, extra := extra } = .ok args ∧
+      bindArgs s.sig args = .ok (b, ex) ∧
+      loadModel true trail missingErr s c dflt extra construct frs =
+        (match construct args with | some r => .ok r | Option.none => .constructorRaised, 1) := by
+  obtain ⟨args, b, ex, h1, h2, _, _⟩ := plan_binds_own_fields hwf hcfg hinj hrun
+  refine ⟨args, b, ex, h1, h2, ?_⟩
+  have he : extract trail missingErr s frs [] [] = .ok (presentVals frs) :=
+    (extract_ok_iff trail missingErr s frs [] [] _).mpr ⟨rfl, hx, by simp⟩
+  unfold loadModel
+  simp only [he, h1]
+  cases construct args <;> rfl
+
+
+/-- **`RunOk.vars` is what a finished extraction phase establishes**: when every field of the shape went
+    through the extraction (`frs` mentions it), nothing stopped it, and a default clause exists for every
+    optional field that is passed by variable, then every such variable is assigned. -/
+theorem runOk_vars_of_extraction {V E : Type} {s : Shape} {c : Cfg} (dflt : String → Option V) (extra : List (String × V))
+    (frs : List (Field × FieldRes V E))
+    (hall : ∀ f ∈ s.fields, ∃ res, (f, res) ∈ frs) (hx : Extractable frs)
+    (hd : ∀ f ∈ s.fields, f.required = false → c.skipped.contains f.id = false → isPacked c f = false →
+      (dflt f.id).isSome = true) :
+    ∀ f ∈ s.fields, c.skipped.contains f.id = false → isPacked c f = false →
+      ((Inputs.mk (fun id => (presentVals frs).lookup id) dflt extra).fieldVar f.id).isSome = true := by
+  intro f hf hs hp
+  obtain ⟨res, hres⟩ := hall f hf
+  simp only [Inputs.fieldVar]
+  cases res with
+  | loaded v =>
+    have := lookup_presentVals_isSome f v frs hres
+    cases hl : (presentVals frs).lookup f.id with
+    | none => simp [hl] at this
+    | some w => rfl
+  | absent =>
+    have hreq := hx.2 f hres
+    cases hl : (presentVals frs).lookup f.id with
+    | none => exact hd f hf hreq hs hp
+    | some w => rfl
+  | failed e => exact absurd hres (hx.1 f e)
+
+
+/-- witness: `p`, `k` loaded, the optional `r`, `q`, `u` absent; the constructor is reached in every trail mode
+    with exactly `p = 1`, `k = 4` as loaded values (and `r`'s default clause) -/
+example (trail : Trail) :
+    (loadModel true trail (fun id => id) mixShape mixCfg mixInputs.dflt mixInputs.extra
+      (fun args => some args.length)
+      [(⟨"p", true, .noDefault⟩, .loaded 1), (⟨"q", false, .value⟩, .absent), (⟨"r", false, .value⟩, .absent),
+       (⟨"u", false, .factoryWithSelf⟩, .absent), (⟨"k", true, .noDefault⟩, FieldRes.loaded 4)]) = (.ok 5, 1) := by
+  cases trail <;> rfl
+
 end CallPlan
 
 /-! ### the defect of the code before `fixes/C08-skipped-param-keywords.patch`, stated and witnessed
@@ -291,6 +436,9 @@ theorem unrepaired_kwmode_partial (s : Shape) (c : Cfg) (ps : List Param) (hs : 
     genParams false s c hs ps = genParams true s c hs ps := by
   rw [genParams_kwMode false s c ps hs hmode hf, genParams_kwMode true s c ps hs hmode hf]
 
+example := unrepaired_kwmode_partial witnessShape witnessCfg [⟨"a", "a", .kwOnly⟩, ⟨"b", "b", .kwOnly⟩] false
+  (.inr (by simp)) (by decide)
+
 /-! non-vacuity of Part 1: the repaired call for the witness, and a mixed layout -/
 example :
     mkPlan true witnessShape witnessCfg witnessInputs = .ok [.pos 0, .kw "c" 3, .starStar []] := rfl
@@ -334,6 +482,25 @@ theorem default_true (so : SortOracle) (hso : ∀ xs ys, so xs = some ys → ys.
     · cases h
       exact ht
 
+/-- a nested default: dict with str / int / tuple keys holding a list (with `True`, `None`), a set (rendered
+    through the `sorted` oracle) and a frozenset -/
+def nestedDefault : Val :=
+  .dict [(.str "k", .list [.int 1, .bool true, .none]), (.int 0, .set [.int 2, .int 1]),
+         (.tuple [.int 1], .frozenset [.str "s"])]
+
+/-- the `sorted` oracle that leaves the order alone (a permutation) -/
+def keepOrder : SortOracle := some
+
+/-- **witness**: the nested default does get a literal, and the theorem applies to it -/
+theorem default_true_witness :
+    ∃ (t : Txt) (e : PyExpr), literalExpr keepOrder nestedDefault = .text t ∧ t = e.render ∧
+      Same (e.eval Generated.pyBuiltins) nestedDefault := by
+  have h : ∃ t, literalExpr keepOrder nestedDefault = .text t := ⟨_, rfl⟩
+  obtain ⟨t, ht⟩ := h
+  obtain ⟨e, he, hs⟩ := default_true keepOrder (fun xs ys h => by cases h; exact List.Perm.refl _)
+    (fuelFor nestedDefault) nestedDefault t ht
+  exact ⟨t, e, ht, he, hs⟩
+
 /-- `Same` really is type-exact: values related by it have the same exact type … -/
 theorem same_type_exact {a b : Val} (h : Same a b) : a.typeOf = b.typeOf := by
   cases h <;> rfl
@@ -370,6 +537,9 @@ theorem literal_none_falls_back (so : SortOracle) (v : Val) (h : literalExpr so 
   · simp [defaultClause, h]
   · rfl
 
+example := literal_none_falls_back keepOrder (.opaque "Decimal" 7 (some 1) true) rfl Generated.pyBuiltins
+  (fun v => v) 42 Option.none ⟨100, []⟩
+
 /-- with a literal, every load evaluates it afresh to a `Same` value -/
 theorem inline_default_true (so : SortOracle) (hso : ∀ xs ys, so xs = some ys → ys.Perm xs)
     (v : Val) (t : Txt) (h : defaultClause so (.value v) = some (.inline t)) :
@@ -386,6 +556,16 @@ theorem inline_default_true (so : SortOracle) (hso : ∀ xs ys, so xs = some ys 
   | noLiteral => simp [defaultClause, hl] at h
   | raised c => simp [defaultClause, hl] at h
   | stuck m => simp [defaultClause, hl] at h
+
+theorem inline_default_true_witness :
+    ∃ t, defaultClause keepOrder (.value (.tuple [.int 1, .bool false])) = some (.inline t) ∧
+      ∃ e : PyExpr, t = e.render ∧ Same (e.eval Generated.pyBuiltins) (.tuple [.int 1, .bool false]) := by
+  have h : ∃ t, defaultClause keepOrder (.value (.tuple [.int 1, .bool false])) = some (.inline t) :=
+    ⟨_, rfl⟩
+  obtain ⟨t, ht⟩ := h
+  obtain ⟨e, he, hs⟩ := inline_default_true keepOrder
+    (fun xs ys h => by cases h; exact List.Perm.refl _) _ t ht
+  exact ⟨t, ht, e, he, (hs (fun v => v) 0 ⟨5, []⟩).1⟩
 
 /-- **factory literal.**  A default factory is replaced by a literal only when
     the literal is exactly what calling the factory returns. -/
@@ -413,6 +593,10 @@ theorem factory_literal_true (so : SortOracle) (f : Val) (t : Txt)
   | noLiteral => simp [defaultClause, hl] at h
   | raised c => simp [defaultClause, hl] at h
   | stuck m => simp [defaultClause, hl] at h
+
+example : ∃ (e : PyExpr) (v : Val), lit ['[', ']'] = e.render ∧ callFactory (.builtin "list") = some v ∧
+    Same (e.eval Generated.pyBuiltins) v :=
+  factory_literal_true keepOrder (.builtin "list") _ rfl
 
 /-- **factory_fresh.**  For a default that is not a captured constant (an inline
     literal or a factory call), `n` successive loads yield `n` objects with
@@ -447,6 +631,10 @@ theorem factory_fresh (bi : Builtins) (sem : FactorySem) (a : Nat) (e? : Option 
       refine ⟨?_, ?_⟩
       · rw [List.map_cons, h1]; rfl
       · rw [h2]; omega
+
+example : ((loadsOmitted Generated.pyBuiltins (fun _ => .set []) 9 Option.none (.callCaptured (.builtin "set")) 3
+    ⟨100, []⟩).1.map (·.alloc)) = [100, 101, 102] :=
+  (factory_fresh _ _ 9 Option.none (.callCaptured (.builtin "set")) (fun v h => by cases h) 3 ⟨100, []⟩).1
 
 /-- … no two loads share the object … -/
 theorem factory_fresh_distinct (bi : Builtins) (sem : FactorySem) (a : Nat) (e? : Option PyExpr) (c : Clause)
